@@ -167,8 +167,9 @@ class RecurrencePlot(Cached):
 
         self.N: int = 0
         """The number of state vectors (number of lines and rows) of the RP."""
+        self._mut_R: int = 0
+        """mutation count tracking the recurrence matrix"""
         self.R = None
-        """The recurrence matrix."""
 
         self._mut_embedding: int = 0
         if (self.dim is not None) and (self.tau is not None):
@@ -252,6 +253,17 @@ class RecurrencePlot(Cached):
         self._embedding = to_cy(embedding, DFIELD)
         self.N = self._embedding.shape[0]
         self._mut_embedding += 1
+
+    @property
+    def R(self):
+        """The recurrence matrix."""
+        return self._R
+
+    @R.setter
+    def R(self, R):
+        self._R = R
+        # invalidate cache
+        self._mut_R += 1
 
     #
     #  Service methods
@@ -843,7 +855,7 @@ class RecurrencePlot(Cached):
     #
 
     @Cached.method(attrs=(
-        "metric", "threshold", "missing_values", "sparse_rqa"))
+        "metric", "threshold", "missing_values", "sparse_rqa", "_mut_R"))
     def diagline_dist(self):
         """
         Return the :index:`frequency distribution of diagonal line lengths
@@ -1068,7 +1080,7 @@ class RecurrencePlot(Cached):
     #
 
     @Cached.method(attrs=(
-        "metric", "threshold", "missing_values", "sparse_rqa"))
+        "metric", "threshold", "missing_values", "sparse_rqa", "_mut_R"))
     def vertline_dist(self):
         """
         Return the :index:`frequency distribution of vertical line lengths
